@@ -126,21 +126,21 @@ func (*cP1) Ping(context.Context, *cReq) (*cResp, error) { return nil, nil }
 type cP2 struct{ tag string }
 
 func (*cP2) Ping(context.Context, *cReq) (*cResp, error) { return nil, nil }
-func (*cP2) Watch(*cReq, cSS) error                     { return nil }
+func (*cP2) Watch(*cReq, cSS) error                      { return nil }
 
 type cP3 struct{ tag string }
 
 func (*cP3) Ping(context.Context, *cReq) (*cResp, error) { return nil, nil }
-func (*cP3) Watch(*cReq, cSS) error                     { return nil }
-func (*cP3) Chat(cSS) error                             { return nil }
+func (*cP3) Watch(*cReq, cSS) error                      { return nil }
+func (*cP3) Chat(cSS) error                              { return nil }
 
 type cP3x struct{ tag string }
 
 func (*cP3x) Ping(context.Context, *cReq) (*cResp, error) { return nil, nil }
-func (*cP3x) Watch(*cReq, cSS) error                     { return nil }
-func (*cP3x) Chat(cSS) error                             { return nil }
-func (*cP3x) Aardvark()                                  {}
-func (*cP3x) Zebra(int) string                           { return "" }
+func (*cP3x) Watch(*cReq, cSS) error                      { return nil }
+func (*cP3x) Chat(cSS) error                              { return nil }
+func (*cP3x) Aardvark()                                   {}
+func (*cP3x) Zebra(int) string                            { return "" }
 
 type cW1 struct{ tag string }
 
@@ -149,7 +149,7 @@ func (*cW1) Watch(*cReq, cSS) error { return nil }
 type cPC struct{ tag string }
 
 func (*cPC) Ping(context.Context, *cReq) (*cResp, error) { return nil, nil }
-func (*cPC) Chat(cSS) error                             { return nil }
+func (*cPC) Chat(cSS) error                              { return nil }
 
 type cWC struct{ tag string }
 
@@ -160,63 +160,63 @@ func (*cWC) Chat(cSS) error         { return nil }
 type cSparam struct{ tag string } // Ping still takes the request type of another revision
 
 func (*cSparam) Ping(context.Context, *cResp) (*cResp, error) { return nil, nil }
-func (*cSparam) Watch(*cReq, cSS) error                      { return nil }
-func (*cSparam) Chat(cSS) error                              { return nil }
+func (*cSparam) Watch(*cReq, cSS) error                       { return nil }
+func (*cSparam) Chat(cSS) error                               { return nil }
 
 type cSresult struct{ tag string } // Ping returns another message type
 
 func (*cSresult) Ping(context.Context, *cReq) (*cReq, error) { return nil, nil }
-func (*cSresult) Watch(*cReq, cSS) error                    { return nil }
-func (*cSresult) Chat(cSS) error                            { return nil }
+func (*cSresult) Watch(*cReq, cSS) error                     { return nil }
+func (*cSresult) Chat(cSS) error                             { return nil }
 
 type cSnores struct{ tag string } // Watch returns nothing
 
 func (*cSnores) Ping(context.Context, *cReq) (*cResp, error) { return nil, nil }
-func (*cSnores) Watch(*cReq, cSS)                           {}
-func (*cSnores) Chat(cSS) error                             { return nil }
+func (*cSnores) Watch(*cReq, cSS)                            {}
+func (*cSnores) Chat(cSS) error                              { return nil }
 
 type cSarity struct{ tag string } // Chat takes one parameter more
 
 func (*cSarity) Ping(context.Context, *cReq) (*cResp, error) { return nil, nil }
-func (*cSarity) Watch(*cReq, cSS) error                     { return nil }
-func (*cSarity) Chat(cSS, int) error                        { return nil }
+func (*cSarity) Watch(*cReq, cSS) error                      { return nil }
+func (*cSarity) Chat(cSS, int) error                         { return nil }
 
 type cSvariadic struct{ tag string } // Chat is variadic
 
 func (*cSvariadic) Ping(context.Context, *cReq) (*cResp, error) { return nil, nil }
-func (*cSvariadic) Watch(*cReq, cSS) error                     { return nil }
-func (*cSvariadic) Chat(...cSS) error                          { return nil }
+func (*cSvariadic) Watch(*cReq, cSS) error                      { return nil }
+func (*cSvariadic) Chat(...cSS) error                           { return nil }
 
 type cSwide struct{ tag string } // Chat accepts anything
 
 func (*cSwide) Ping(context.Context, *cReq) (*cResp, error) { return nil, nil }
-func (*cSwide) Watch(*cReq, cSS) error                     { return nil }
-func (*cSwide) Chat(interface{}) error                     { return nil }
+func (*cSwide) Watch(*cReq, cSS) error                      { return nil }
+func (*cSwide) Chat(interface{}) error                      { return nil }
 
 type cSalias struct{ tag string } // Ping's context parameter is written with an alias: identical signature
 
 func (*cSalias) Ping(cCtxAlias, *cReq) (*cResp, error) { return nil, nil }
-func (*cSalias) Watch(*cReq, cSS) error               { return nil }
-func (*cSalias) Chat(cSS) error                       { return nil }
+func (*cSalias) Watch(*cReq, cSS) error                { return nil }
+func (*cSalias) Chat(cSS) error                        { return nil }
 
 type cSdefined struct{ tag string } // ... with a defined type: a different signature
 
 func (*cSdefined) Ping(cCtxDefined, *cReq) (*cResp, error) { return nil, nil }
-func (*cSdefined) Watch(*cReq, cSS) error                 { return nil }
-func (*cSdefined) Chat(cSS) error                         { return nil }
+func (*cSdefined) Watch(*cReq, cSS) error                  { return nil }
+func (*cSdefined) Chat(cSS) error                          { return nil }
 
 // names that are nearly right
 type cNupper struct{ tag string }
 
 func (*cNupper) PING(context.Context, *cReq) (*cResp, error) { return nil, nil }
-func (*cNupper) Watch(*cReq, cSS) error                     { return nil }
-func (*cNupper) Chat(cSS) error                             { return nil }
+func (*cNupper) Watch(*cReq, cSS) error                      { return nil }
+func (*cNupper) Chat(cSS) error                              { return nil }
 
 type cNlower struct{ tag string }
 
 func (*cNlower) ping(context.Context, *cReq) (*cResp, error) { return nil, nil }
-func (*cNlower) Watch(*cReq, cSS) error                     { return nil }
-func (*cNlower) Chat(cSS) error                             { return nil }
+func (*cNlower) Watch(*cReq, cSS) error                      { return nil }
+func (*cNlower) Chat(cSS) error                              { return nil }
 
 // a func-typed FIELD called Ping is not a method
 type cFfield struct {
@@ -231,13 +231,13 @@ func (*cFfield) Chat(cSS) error         { return nil }
 type cV2 struct{ tag string }
 
 func (cV2) Ping(context.Context, *cReq) (*cResp, error) { return nil, nil }
-func (cV2) Watch(*cReq, cSS) error                     { return nil }
+func (cV2) Watch(*cReq, cSS) error                      { return nil }
 
 // mixed receivers: the VALUE has Ping only
 type cM2 struct{ tag string }
 
 func (cM2) Ping(context.Context, *cReq) (*cResp, error) { return nil, nil }
-func (*cM2) Watch(*cReq, cSS) error                    { return nil }
+func (*cM2) Watch(*cReq, cSS) error                     { return nil }
 
 // methods promoted through an embedded POINTER (value and pointer both get them); Chat is its own
 type cE3 struct {
@@ -263,14 +263,14 @@ type cEi struct {
 type cInt int
 
 func (cInt) Ping(context.Context, *cReq) (*cResp, error) { return nil, nil }
-func (cInt) Watch(*cReq, cSS) error                     { return nil }
+func (cInt) Watch(*cReq, cSS) error                      { return nil }
 
 // unexported method: this package's own
 type cU struct{ tag string }
 
 func (*cU) Ping(context.Context, *cReq) (*cResp, error) { return nil, nil }
-func (*cU) Watch(*cReq, cSS) error                     { return nil }
-func (*cU) mustEmbedUnimplemented()                    {}
+func (*cU) Watch(*cReq, cSS) error                      { return nil }
+func (*cU) mustEmbedUnimplemented()                     {}
 
 // ... promoted from the other package (the only way to implement alien.Server from here)
 type cUa struct {
@@ -279,7 +279,7 @@ type cUa struct {
 }
 
 func (*cUa) Ping(context.Context, *cReq) (*cResp, error) { return nil, nil }
-func (*cUa) Watch(*cReq, cSS) error                     { return nil }
+func (*cUa) Watch(*cReq, cSS) error                      { return nil }
 
 type confHandler struct {
 	name  string
@@ -413,6 +413,36 @@ func relationOf(it reflect.Type, h interface{}) string {
 	return strings.Join(parts, "+")
 }
 
+// relationAtoms: everything relationOf can say about one interface method, the most conspicuous first.
+// A pair is NAMED (fingerprints, representatives) after the most conspicuous thing that is wrong with it:
+// a registry that accepts the pair overlooks that, and everything subtler the pair may have as well.
+var relationAtoms = []string{
+	"lacks-method",
+	"pointer-receiver-method-on-a-value",
+	"field-instead-of-method",
+	"name-differs-in-case",
+	"lacks-unexported-method",
+	"unexported-method-of-another-package",
+	"signature:arity",
+	"signature:number-of-results",
+	"signature:variadic",
+	"signature:parameter-type",
+	"signature:result-type",
+}
+
+func dominantAtom(relation string) string {
+	has := map[string]bool{}
+	for _, a := range strings.Split(relation, "+") {
+		has[a] = true
+	}
+	for _, a := range relationAtoms {
+		if has[a] {
+			return a
+		}
+	}
+	return relation
+}
+
 // ---------------------------------------------------------------- the op
 
 const confPrefix = "conf("
@@ -486,33 +516,46 @@ func confMatrix() (pairs []confPair) {
 	return
 }
 
-// confRepresentatives: the first pair of every relation that does not implement, and the canonical
-// implementing pairs: per interface the first handler that implements it, plus the first pair of every
-// implementing handler value not yet chosen (so that every handler SHAPE that can be accepted is there once).
+// goodShapes: the handler values that stand for a way of implementing an interface other than "pointer
+// to a struct with exactly these pointer-receiver methods"
+var goodShapes = []string{"P3nil", "P3x", "V2val", "V2nil", "Salias", "E3ptr", "EvPtr", "EiVal", "Int", "Ua"}
+
+// confRepresentatives: of the pairs that do not implement, for every atom the first pair with which
+// nothing else is wrong; of the implementing ones, per interface the first handler that implements it
+// (richest interfaces first, so that a truncated list keeps them), then for every handler of goodShapes
+// the pair with the richest interface it implements.
 func confRepresentatives(pairs []confPair) (ill, good []confPair) {
-	seenRel := map[string]bool{}
-	seenIface := map[string]bool{}
-	seenH := map[string]bool{}
-	for _, p := range pairs {
-		if !p.implements {
-			if !seenRel[p.relation] {
-				seenRel[p.relation] = true
+	for _, a := range relationAtoms {
+		for _, p := range pairs {
+			if !p.implements && p.relation == a {
 				ill = append(ill, p)
+				break
 			}
-			continue
-		}
-		if p.iface == "I0" {
-			continue // everything implements the empty interface; it has its own representative below
-		}
-		if !seenIface[p.iface] || !seenH[p.handler] {
-			seenIface[p.iface], seenH[p.handler] = true, true
-			good = append(good, p)
 		}
 	}
-	for _, p := range pairs {
-		if p.implements && p.iface == "I0" && !seenH[p.handler] {
-			seenH[p.handler] = true
-			good = append(good, p)
+	order := []string{"I3", "I2alien", "I2u", "I3e", "I2", "I1b", "I1", "I0"}
+	chosen := map[string]bool{}
+	for _, in := range order {
+		for _, p := range pairs {
+			if p.implements && p.iface == in {
+				good = append(good, p)
+				chosen[p.kind()] = true
+				break
+			}
+		}
+	}
+	for _, h := range goodShapes {
+	shape:
+		for _, in := range order {
+			for _, p := range pairs {
+				if p.implements && p.iface == in && p.handler == h {
+					if !chosen[p.kind()] {
+						good = append(good, p)
+						chosen[p.kind()] = true
+					}
+					break shape
+				}
+			}
 		}
 	}
 	return
@@ -529,7 +572,7 @@ func confSelfCheck(pairs []confPair) error {
 			rel[p.relation]++
 		}
 	}
-	for _, need := range []string{"lacks-method", "signature:parameter-type", "signature:result-type", "signature:number-of-results", "signature:arity", "signature:variadic", "pointer-receiver-method-on-a-value", "name-differs-in-case", "field-instead-of-method", "unexported-method-of-another-package", "lacks-unexported-method"} {
+	for _, need := range relationAtoms {
 		if rel[need] == 0 {
 			return fmt.Errorf("no pair of the conformance matrix has the relation %q on its own", need)
 		}
